@@ -299,7 +299,7 @@ def family_N(rng, n=None, max_lag=2, max_lead=2, measurement=None, forward_share
 # ------------------------------------------------------------------------------
 
 
-def family_G(rng, template=None):
+def family_G(rng, template=None, measurement=False):
     """balanced-growth templates; returns (spec, steady{name: (level at t=0 is free -> None, gross/additive change)}, meta).
     Levels on a growth path are not unique for trending variables; the caller compares changes and stationary ratios."""
     template = int(rng.integers(0, 3)) if template is None else template
@@ -360,4 +360,17 @@ def family_G(rng, template=None):
         }
         steady = {"z": (None, d), "s": (c, 0.0), "q": (None, d)}
         meta = {"family": "G", "template": "random-walk-drift", "ratios": [], "diffs": [("q", "z", c)], "fix": {"z": 0.0}}
+    if measurement:
+        # a measurement equation on a GROWING transition variable (current-dated and lagged): its intercept in the first-order
+        # solution depends on the date at which the steady path is read
+        name, is_log = {"trend-productivity": ("y", True), "nominal-real": ("p", True), "random-walk-drift": ("q", False)}[meta["template"]]
+        lag = int(rng.integers(0, 2))
+        spec["mvars"].append({"name": "og", "desc": "", "log": is_log})
+        spec["mshocks"].append({"name": "wg", "desc": ""})
+        if is_log:
+            rhs = E.bin_("*", E.bin_("*", E.num(_r(rng, 0.5, 1.5, 2)), E.var(name, -lag)), E.call("exp", E.var("wg", 0)))
+        else:
+            rhs = E.add_all([E.var(name, -lag), E.num(_r(rng, -0.5, 0.5, 2)), E.var("wg", 0)])
+        spec["meqs"].append({"lhs": E.var("og", 0), "rhs": rhs, "steady": None, "desc": "", "eqsign": "="})
+        steady["og"] = (None, steady[name][1])
     return spec, steady, meta
